@@ -131,13 +131,15 @@ func (st *state) loader(load, fetch, clear *core.Fn) {
 	rec[1] = newest
 	for _, p := range g.Points(func(n ast.Node) bool { _, ok := n.(*ast.AssignStmt); return ok }) {
 		as := p.Node().(*ast.AssignStmt)
-		if len(as.Lhs) != 1 || len(as.Rhs) != 1 || x.LoopOf(as) != ast.Stmt(loop) {
+		if len(as.Lhs) != len(as.Rhs) || x.LoopOf(as) != ast.Stmt(loop) {
 			continue
 		}
-		l, r := localObj(info, as.Lhs[0]), localObj(info, as.Rhs[0])
-		for k := range src {
-			if r != nil && r == src[k] && l != nil && (k != 1 || l == newest) {
-				rec[k], recAssign[k] = l, as
+		for i := range as.Lhs { // also a tuple assignment `a, b, c, d = w, x, y, z`
+			l, r := localObj(info, as.Lhs[i]), localObj(info, as.Rhs[i])
+			for k := range src {
+				if r != nil && r == src[k] && l != nil && (k != 1 || l == newest) {
+					rec[k], recAssign[k] = l, as
+				}
 			}
 		}
 	}
